@@ -75,11 +75,11 @@ fn codes_valid<T: Pixel>(bd: u8, full: bool) {
     let v: f32 = kani::any();
     let (s, o) = get_scale_offset::<false>(bd, full, false);
     let (cs, co) = get_scale_offset::<false>(bd, full, true);
-    let y: T = from_f32_luma(v, s, o, bd);
-    let c: T = from_f32_chroma(v, cs, co, bd, full);
     kani::cover!(v.is_nan());
     kani::cover!(v == f32::INFINITY);
     kani::cover!(v == f32::NEG_INFINITY);
+    let y: T = from_f32_luma(v, s, o, bd);
+    let c: T = from_f32_chroma(v, cs, co, bd, full);
     assert!(u16::cast_from(y) <= maxcode(bd));
     assert!(u16::cast_from(c) <= maxcode(bd));
 }
